@@ -152,6 +152,25 @@ def make_cases(ctx):
             rtap = rng.random() < 0.5
             add("c04", "%d %s ago at %02d:%02d" % (n, word(u, n, rng), h, mi), b, kw, "ago", rng.choice(PDF), [h, mi, 0, 0], [u],
                 [{"u": u, "num": n, "den": 1}], rtap=rtap)
+    # the ends of the representable range: results landing exactly in year 1 / year 9999, and one step beyond (None)
+    for by in (1809, 1999, 2019, 2199, 1800, 2200, 2000):
+        b = (by, rng.choice([1, 6, 12]), rng.choice([1, 15, 28])) + tod()
+        edge = []
+        if by % 10 == 9:
+            n = (9999 - by) // 10
+            edge += [("in %d decades" % n, {"decade": n}, "in", ["decade"]), ("in %d decades" % (n + 1), {"decade": n + 1}, "in", ["decade"]),
+                     ("in %d decades 9 years" % (n - 1), {"decade": n - 1, "year": 9}, "in", ["decade", "year"]),
+                     ("in %d decades and 10 years" % (n - 1), {"decade": n - 1, "year": 10}, "in", ["decade", "year"]),
+                     ("in %d decades 8 years 12 months" % (n - 1), {"decade": n - 1, "year": 8, "month": 12}, "in", ["decade", "year", "month"])]
+        edge += [("%d years ago" % (by - 1), {"year": by - 1}, "ago", ["year"]), ("%d years ago" % by, {"year": by}, "ago", ["year"]),
+                 ("%d months ago" % ((by - 1) * 12), {"month": 0}, "ago", ["month"])]
+        for s_, delta, dir_, counted in edge:
+            if delta.get("month", 1) == 0:
+                continue        # counts above 5000 are outside the stated range
+            kw = kw0()
+            for u, n_ in delta.items():
+                setkw(kw, u, n_)
+            add("c04", s_, b, kw, dir_, rng.choice(PDF), None, counted, [{"u": u, "num": n_, "den": 1} for u, n_ in delta.items()])
     # implicit now: TIMEZONE / TO_TIMEZONE pairs over zones without DST (offset independent of the instant)
     for (z, zo) in NODST:
         for (z2, zo2) in ([(None, None)] + (NODST if not ctx.quick() else rng.sample(NODST, 3))):
